@@ -288,6 +288,46 @@ def check_front_axes(ctx, rep):
                             f"{qual.split('.')[-2]}.{qual.split('.')[-1]}: `{txt[:70]}` addresses axis {front} counted from the front of a value that can carry sample dimensions: "
                             f"the position of an axis from the front depends on how many sample dimensions there are ([S] or [S, K]); with a different number the operation hits a "
                             f"sample axis and values of different samples are combined or misaligned")
+    # transpose / swapaxes / movedim with one axis counted from the front and one from the end: `torch.stack(xs).transpose(0, -1)` puts the stacked axis last only when
+    # there is exactly one sample dimension; with [S, K] it swaps the two sample axes
+    def mixed_sign_swaps(tree):
+        out = []
+        for c in ast.walk(tree):
+            if isinstance(c, ast.Call) and isinstance(c.func, ast.Attribute) and c.func.attr in ('transpose', 'swapaxes', 'swapdims', 'movedim', 'moveaxis'):
+                torch_fn = isinstance(c.func.value, ast.Name) and c.func.value.id == 'torch'
+                args = c.args[1:] if torch_fn else c.args
+                vals = []
+                for a in args[:2]:
+                    try:
+                        vals.append(int(ast.literal_eval(a)))
+                    except Exception:
+                        vals.append(None)
+                if len(vals) == 2 and None not in vals and (vals[0] >= 0) != (vals[1] >= 0):
+                    out.append((c, (c.args[0] if c.args else None) if torch_fn else c.func.value, vals))
+        return out
+    if len(mixed_sign_swaps(ast.parse("def f(self, x):\n    return torch.stack(hs).transpose(0, -1), x.transpose(-1, -2), x.transpose(0, 1)"))) != 1:
+        raise AnalysisError('C10.P self-check: mixed-sign transpose of the embedded example not recognised')
+    for mname, m in sorted(ctx.prog.modules.items()):
+        if not any(mname.startswith(p) or mname == p.rstrip('.') for p in SCOPE_PACKAGES):
+            continue
+        for fn in ast.walk(m.tree):
+            if not isinstance(fn, ast.FunctionDef) or fn.name in SKIP_METHODS:
+                continue
+            defs = local_assignments(fn)
+            for c, operand, vals in mixed_sign_swaps(fn):
+                if any(c is x for sub in ast.walk(fn) if isinstance(sub, ast.FunctionDef) and sub is not fn for x in ast.walk(sub)):
+                    continue
+                inner = operand
+                while isinstance(inner, ast.Call) and isinstance(inner.func, ast.Attribute) and inner.func.attr in ('stack', 'cat') and inner.args:
+                    seq = inner.args[0]
+                    inner = seq.elts[0] if isinstance(seq, (ast.List, ast.Tuple)) and seq.elts else seq
+                cl = getattr(fn, '_parent', None)
+                scope = f"{cl.name}.{fn.name}" if isinstance(cl, ast.ClassDef) else fn.name
+                txt = norm_text(c)
+                if operand is not None and may_be_batched(inner, fn, defs):
+                    rep.bad('C10.P', f"{mname.replace('torchtree.', '')}.{scope}::{txt[:60]}", where(m, c), {'axes': vals},
+                            f"{scope}: `{txt[:70]}` exchanges axis {vals[0]} with axis {vals[1]} — one counted from the front, one from the end — on a value that can carry sample "
+                            f"dimensions: which axis the front index hits depends on the number of sample dimensions; with [S, K] it is a sample axis and the samples are permuted")
     rep.analysed['axis_operations_with_constant_axis'] = n
     if n < 150:
         rep.incomplete('C10.P', '*', '', f"only {n} axis operations with a constant axis found")
@@ -307,11 +347,23 @@ SHAPE_FROM_SAMPLE = ('sample_shape', 'batch_shape')
 class Ranks:
     """flow-sensitive ranks of the form len(sample_shape) + k for values shaped by `<sample shape> + (…)`"""
 
-    def __init__(self, fn):
+    def __init__(self, fn, prop_rank=None):
         self.fn = fn
         self.reports = []
         self.decided = 0
         self._seen = set()
+        self.prop_rank = prop_rank      # name of a property of the class -> rank of what it returns (1 for `return self._x.tensor`)
+        # names the function itself uses as (batches of) matrices: argument of cholesky / inverse / det / solve / diagonal(dim1=-2, dim2=-1) / triu / tril
+        self.matrix_names = set()
+        for c in ast.walk(fn):
+            if isinstance(c, ast.Call) and isinstance(c.func, ast.Attribute):
+                nm = c.func.attr
+                torch_like = isinstance(c.func.value, (ast.Name, ast.Attribute)) and ast.unparse(c.func.value) in ('torch', 'torch.linalg')
+                operand = (c.args[0] if c.args else None) if torch_like else c.func.value
+                if nm in ('cholesky', 'inverse', 'inv', 'det', 'logdet', 'slogdet', 'cholesky_inverse', 'triu', 'tril', 'matrix_exp', 'eigh', 'eig') or \
+                        (nm == 'diagonal' and any(k.arg in ('dim1', 'dim2') for k in c.keywords)):
+                    if isinstance(operand, ast.Name):
+                        self.matrix_names.add(operand.id)
 
     def shape_rank(self, e, env):
         """rank of a shape expression `sample_shape + (a, b)`"""
@@ -320,6 +372,9 @@ class Ranks:
             base = None
             if isinstance(l, ast.Name) and l.id in SHAPE_FROM_SAMPLE or (isinstance(l, ast.Attribute) and l.attr in SHAPE_FROM_SAMPLE):
                 base = 0
+            elif isinstance(l, ast.Subscript) and isinstance(l.value, ast.Attribute) and l.value.attr == 'shape' and ast.unparse(l.slice) == ':-1' \
+                    and self.rank(l.value.value, env) == 1:
+                base = 0        # <parameter tensor>.shape[:-1]: the sample shape of a value of rank 1
             elif isinstance(l, ast.BinOp):
                 base = self.shape_rank(l, env)
             if base is None:
@@ -336,7 +391,15 @@ class Ranks:
         if txt in RANK_TABLE:
             return RANK_TABLE[txt][0]
         if isinstance(e, ast.Name):
+            if e.id in self.matrix_names:
+                return 2
             return env.get(e.id)
+        if isinstance(e, ast.Attribute) and e.attr == 'tensor' and isinstance(e.value, ast.Name) and e.value.id in {a.arg for a in self.fn.args.args} - {'self'}:
+            return 1            # the tensor of a parameter passed to the method
+        if isinstance(e, ast.Attribute) and e.attr == 'tensor' and isinstance(e.value, ast.Attribute) and isinstance(e.value.value, ast.Name) and e.value.value.id == 'self':
+            return 1            # the tensor of a parameter held by the object: [sample…, event]
+        if isinstance(e, ast.Attribute) and isinstance(e.value, ast.Name) and e.value.id == 'self' and self.prop_rank is not None:
+            return self.prop_rank(e.attr)
         if isinstance(e, ast.UnaryOp):
             return self.rank(e.operand, env)
         if isinstance(e, ast.Call) and isinstance(e.func, ast.Attribute):
@@ -368,6 +431,17 @@ class Ranks:
                         self.reports.append((e, known))
                     return known[0]
                 return None
+            return None
+        if isinstance(e, ast.BinOp) and isinstance(e.op, ast.MatMult):
+            # [S, d] @ [S, d, d]: matmul reads the first operand as ONE S×d matrix and broadcasts it against the batch of the second: the result is [S, S, d]
+            l, r = self.rank(e.left, env), self.rank(e.right, env)
+            if l is not None and r is not None:
+                if id(e) not in self._seen:
+                    self._seen.add(id(e))
+                    self.decided += 1
+                    if {l, r} == {1, 2}:
+                        self.reports.append((e, [l, r]))
+                return min(l, r) if {l, r} == {1, 2} else max(l, r)
             return None
         if isinstance(e, ast.BinOp) and isinstance(e.op, (ast.Add, ast.Sub, ast.Mult, ast.Div)):
             l, r = self.rank(e.left, env), self.rank(e.right, env)
@@ -440,7 +514,24 @@ def check_ranks(ctx, rep):
         for fn in ast.walk(m.tree):
             if not isinstance(fn, ast.FunctionDef):
                 continue
-            rk = Ranks(fn)
+            cl0 = getattr(fn, '_parent', None)
+            ci = ctx.classes.find(f"{mname}.{cl0.name}") if isinstance(cl0, ast.ClassDef) else None
+
+            def prop_rank(attr, ci=ci):
+                if ci is None:
+                    return None
+                try:
+                    g = ci.resolve(attr, 'getter')
+                except Exception:
+                    g = None
+                if not g:
+                    return None
+                body = [b for b in g[1].body if not (isinstance(b, ast.Expr) and isinstance(b.value, ast.Constant))]
+                if len(body) == 1 and isinstance(body[0], ast.Return) and isinstance(body[0].value, ast.Attribute) and body[0].value.attr == 'tensor' \
+                        and isinstance(body[0].value.value, ast.Attribute) and isinstance(body[0].value.value.value, ast.Name) and body[0].value.value.value.id == 'self':
+                    return 1
+                return None
+            rk = Ranks(fn, prop_rank)
             reports = rk.run()
             n += rk.decided
             cl = getattr(fn, '_parent', None)
